@@ -104,6 +104,13 @@ def run(spec):
     name = spec["name"]
     cell, g, qn = spec["cell"], spec["gdim"], spec["q"]
     dom = mesh(cell, g)
+    if spec.get("coords") == "DG":
+        # affine cells described by a discontinuous P1 coordinate field (periodic meshes): not a "piecewise linear
+        # simplex domain" for UFL, so the generic branches of the lowering are taken
+        from checks.common import CELLS
+        from vlib import elements as el_
+
+        dom = ufl.Mesh(el_.DG(CELLS[cell], 1, (g,)))
     t = dom.topological_dimension
     facet = spec.get("facet")
     env = GeomEnv(cell, g, mode="J", facet=facet)
@@ -288,6 +295,17 @@ def specs(tier):
                               gdim=g, facet=f, timeout=180 if q == "Circumradius" else 120,
                               task_timeout=600 if q == "Circumradius" else 300,
                               twin=(q in ("CellVolume", "JacobianInverse", "FacetNormal") and (cell, g) == ("triangle", 2) and f in (None, 0))))
+    for cell, g in (("triangle", 2), ("tetrahedron", 3), ("triangle", 3)):
+        t = TD[cell]
+        for q in ("CellDiameter", "MinCellEdgeLength", "MaxCellEdgeLength", "Circumradius", "CellVolume", "FacetArea", "FacetNormal",
+                  "JacobianInverse", "MinFacetEdgeLength", "MaxFacetEdgeLength"):
+            if q in ("MinFacetEdgeLength", "MaxFacetEdgeLength") and t < 3:
+                continue
+            facets = [0, t] if q.startswith("Facet") or "FacetEdge" in q else [None]
+            for f in facets:
+                S.append(dict(name=f"dgcoords/{q}/{cell}/gdim={g}" + (f"/facet={f}" if f is not None else ""), q=q, cell=cell, gdim=g,
+                              facet=f, coords="DG", may_raise=True, timeout=180 if q == "Circumradius" else 120,
+                              task_timeout=600 if q == "Circumradius" else 300))
     # several quantities lowered in one expression, in both orders
     import itertools
 
